@@ -933,7 +933,13 @@ def _load_data(rec, context):
     comps = [list(map(context.object, [cid, comp]))
              for cid, comp in rec['components']]
 
-    for icomp, (cid, comp) in enumerate(comps):
+    # A derived component can't be the first component to be added to a
+    # dataset, so we add the derived components after the other ones and
+    # restore the order in which the components were saved afterwards.
+    order = sorted(range(len(comps)), key=lambda icomp: isinstance(comps[icomp][1], DerivedComponent))
+
+    for icomp in order:
+        cid, comp = comps[icomp]
         if isinstance(comp, CoordinateComponent):
             comp._data = result
 
@@ -952,6 +958,8 @@ def _load_data(rec, context):
             comp.link.set_to_id(cid)
 
         result.add_component(comp, cid)
+
+    result.reorder_components([cid for cid, comp in comps])
 
     assert result._world_component_ids == []
 
@@ -1386,7 +1394,13 @@ def _load_regiondata(rec, context):
 
     comps = [list(map(context.object, [cid, comp])) for cid, comp in rec["components"]]
 
-    for icomp, (cid, comp) in enumerate(comps):
+    # A derived component can't be the first component to be added to a
+    # dataset, so we add the derived components after the other ones and
+    # restore the order in which the components were saved afterwards.
+    order = sorted(range(len(comps)), key=lambda icomp: isinstance(comps[icomp][1], DerivedComponent))
+
+    for icomp in order:
+        cid, comp = comps[icomp]
         if isinstance(comp, CoordinateComponent):
             comp._data = result
 
@@ -1405,6 +1419,8 @@ def _load_regiondata(rec, context):
             comp.link.set_to_id(cid)
 
         result.add_component(comp, cid)
+
+    result.reorder_components([cid for cid, comp in comps])
 
     assert result._world_component_ids == []
 
